@@ -33,6 +33,8 @@
 //   prop.rabin verify bits=L <tag> => 0/1                             one per rabin.verify line
 //   prop.rabin decrypt bits=L expect=<value|none> <tag> => value|reject   one per rabin.decrypt line
 //   prop.rabin check nizk=0/1 <tag> => 0/1|reject                     one per rabin.check line
+//   prop.rabin boundary enc|sig key=… <tag> => 1/0       deterministic boundary cases of every run (leading zero octets of the
+//                                                         encoded/padded value, extreme top octets): tag:honest:leadzero1 … tag:honest:topff
 //   prop.rabin roundtrip value=V => result ; prop.rabin sqrtmp / sqrtmn … (root² = a counts)
 //   expected verdicts: tag:honest, tag:equiv:*, tag:short:* accept (decrypt: result = expect); tag:mut:*, tag:cheat:*,
 //   tag:guard:* refuse; tag:resigned:* are judged individually (the holder of the secret key re-signed the key).
@@ -591,6 +593,65 @@ static void check_cases(SplitMix &g, KeyCtx &k, KeyCtx &other, bool thorough)
 	resigned([&](TMCG_SecretKey &c) { c.type = "TMCG/RABIN_" + std::to_string(k.L) ; }, "tag:resigned:type:dropsnizk");
 }
 
+// Deterministic boundary cases, run in every tier: encoded values with leading zero octets / extreme top octets.
+static void boundary_cases(SplitMix &g, std::vector<KeyCtx> &ks)
+{
+	// (1) SAEP: the encoded value is (value ‖ 0^S0) xor G(r) ‖ r; its first octets are value[i] ^ G(r)[i].
+	//     The seed r is scripted into the coin source, the value is chosen so that the first octets come out as wanted.
+	for (size_t ki = 0; ki < ks.size(); ki++) {
+		if (!ks[ki].can_enc) continue;
+		TMCG_SecretKey &sk = *ks[ki].sk; TMCG_PublicKey &pk = *ks[ki].pk;
+		size_t rs = mpz_sizeinbase(sk.m, 2) / 8, s1 = rs - 2 * S0;
+		struct Want { const char *name; int nfix; unsigned char b0; int plain; };   // plain: 0 random, 1 all-zero, 2 all-0xff plaintext
+		static const Want wants[] = {
+			{ "leadzero1", 1, 0x00, 0 }, { "leadzero2", 2, 0x00, 0 }, { "leadzero3", 3, 0x00, 0 },
+			{ "top01", 1, 0x01, 0 }, { "top7f", 1, 0x7f, 0 }, { "top80", 1, 0x80, 0 }, { "topff", 1, 0xff, 0 },
+			{ "zerovalue", 0, 0, 1 }, { "ffvalue", 0, 0, 2 } };
+		for (const Want &w : wants) {
+			std::string r = rand_bytes(g, s1), value = rand_bytes(g, S0);
+			if (w.plain == 1) value.assign(S0, 0);
+			if (w.plain == 2) value.assign(S0, (char)0xff);
+			std::string g12 = Gq(r, 2 * S0);
+			for (int i = 0; i < w.nfix; i++) value[i] = (char)((unsigned char)g12[i] ^ (i == 0 ? w.b0 : 0x00));
+			coins.script.assign(r.begin(), r.end()); coins.script_pos = 0;
+			std::string tag = std::string("tag:honest:") + w.name, rused;
+			std::string c = do_encrypt(pk, value, tag, &rused);
+			coins.script.clear(); coins.script_pos = 0;
+			// what the first octet of the encoded value really is (the harness's own arithmetic, for the record)
+			unsigned first = (unsigned char)value[0] ^ (unsigned char)Gq(rused, 2 * S0)[0];
+			std::string res = do_decrypt(sk, c, tag, value);
+			emit("prop.rabin boundary enc key=" + ks[ki].label + " scripted=" + b2s(rused == r) + " first=" + std::to_string(first) + " " + tag + " => " + b2s(res == hexs(value)));
+		}
+	}
+	// (2) PRab: search data strings until the padded value s^2 mod m has a leading zero octet (w[0] = 0, chance 1/256
+	//     per signature); the search signs silently with logged coins, the hit is replayed with the same coins scripted.
+	{
+		KeyCtx &k = ks[0]; TMCG_SecretKey &sk = *k.sk; TMCG_PublicKey &pk = *k.pk;
+		bool found = false; size_t tries = 0;
+		for (; tries < 6000 && !found; tries++) {
+			std::string data = "leadzero-" + std::to_string(g.next() % 1000000007ULL) + "-" + std::to_string(tries);
+			coins.take(); coins.log = true;
+			std::string s = sk.sign(data);
+			std::vector<CoinLogEntry> es = coins.take();
+			Parts p = split3(s); Z v, foo; mpz_set_str(v, p.val.c_str(), TMCG_MPZ_IO_BASE);
+			mpz_mul(foo, v, v); mpz_mod(foo, foo, sk.m);
+			if (mpz_sizeinbase(foo, 2) > 8 * (k.mnsize - 1)) continue;
+			found = true;
+			coins.script.clear(); coins.script_pos = 0;
+			for (auto &e : es) coins.script.insert(coins.script.end(), e.bytes.begin(), e.bytes.end());
+			std::string s2 = do_sign(sk, data, "tag:honest:leadzero1");
+			coins.script.clear(); coins.script_pos = 0;
+			bool ok = do_verify(pk, data, s2, "tag:honest:leadzero1");
+			emit("prop.rabin sign bits=" + std::to_string(k.L) + " len=" + std::to_string(data.size()) + " tag:honest:leadzero1 => " + b2s(ok));
+			emit("prop.rabin boundary sig key=" + k.label + " replayed=" + b2s(s2 == s) + " padbits=" + std::to_string(mpz_sizeinbase(foo, 2)) + " tries=" + std::to_string(tries + 1) + " tag:honest:leadzero1 => " + b2s(ok));
+			// the other three roots and the negated root of the short padded value
+			Z r[4]; tmcg_mpz_sqrtmn_fast_all(r[0], r[1], r[2], r[3], foo, sk.p, sk.q, sk.m, sk.gcdext_up, sk.gcdext_vq, sk.pa1d4, sk.qa1d4);
+			for (int i = 0; i < 4; i++) { Parts q = p; q.val = s62(r[i]); do_verify(pk, data, join3(q), "tag:equiv:value:leadzero1:root" + std::to_string(i)); }
+		}
+		if (!found) emit("prop.rabin boundary sig key=" + k.label + " tries=" + std::to_string(tries) + " tag:honest:leadzero1 => notfound");
+	}
+}
+
 static void make_key(std::vector<KeyCtx> &ks, const char *name, unsigned long bits, bool nizk)
 {
 	KeyCtx k; k.sk.reset(new TMCG_SecretKey(name, std::string(name) + "@example.org", bits, nizk));
@@ -641,6 +702,7 @@ static int drv_rabin(const Opts &o)
 		do_verify(small, "abc", ks[0].sk->sign("abc"), "tag:guard:bytealigned");
 		do_decrypt(*ks[0].sk, "enc|" + ks[0].pk->keyid() + "|4|", "tag:guard:smallmodulus");
 	}
+	boundary_cases(g, ks);
 	// volume
 	std::vector<size_t> enc_keys; for (size_t i = 0; i < ks.size(); i++) if (ks[i].can_enc) enc_keys.push_back(i);
 	for (uint64_t c = 0; c < o.cases; c++) {
